@@ -34,6 +34,7 @@ import (
 	"sync"
 	"sync/atomic"
 	"testing"
+	"time"
 
 	"github.com/prometheus/prometheus/internal/verif/histmodel"
 	"github.com/prometheus/prometheus/internal/verif/vx"
@@ -173,6 +174,9 @@ func (g *c33Gen) add(q string) { g.addFn(q, "") }
 
 func (g *c33Gen) addFn(q, fn string) {
 	if g.seen[q] {
+		if fn != "" && g.fn[q] == "" {
+			g.fn[q] = fn
+		}
 		return
 	}
 	g.seen[q] = true
@@ -337,8 +341,12 @@ func (g *c33Gen) functions(thorough bool) {
 		if n > 0 && f.Variadic == 0 {
 			g.addFn(name+"("+strings.Join(first(n-1), ", ")+")", name)
 		}
-		if f.Variadic >= 0 {
+		if f.Variadic >= 0 && n > 0 {
 			g.addFn(name+"("+strings.Join(first(n+1), ", ")+")", name)
+		}
+		if n == 0 {
+			g.addFn(name+"(1)", name)
+			g.addFn(name+"(f)", name)
 		}
 	}
 }
@@ -584,11 +592,11 @@ var c33InternalPatterns = []string{
 	"unexpected error", "runtime error", "nil pointer", "index out of range", "slice bounds out of range",
 	"invalid memory address", "interface conversion", "integer divide by zero", "makeslice", "out of memory",
 	"unhandled", "unexpected nil implementation", "unexpected result in", "unexpected number of samples",
-	"unexpected expression type", "invalid expression type", "unknown value type", "found unexpected node",
+	"promql.engine.exec:", "unknown value type", "found unexpected node",
 	"set operations must only use many-to-many", "many-to-many only allowed for set operators",
 	"not allowed for scalar operations", "not allowed for operations between vectors",
 	"expected aggregation operator", "cannot do range evaluation of matrix selector",
-	"not supported", "must never be called", "failed to pick value type", "expected type", "panic",
+	"not supported", "must never be called", "have no zero bucket", "failed to pick value type", "expected type", "panic",
 }
 
 func c33InternalError(o *ag_Outcome) string {
@@ -741,10 +749,6 @@ func TestVerifC33(t *testing.T) {
 		case "single":
 			o := c33Run(engines[rp.Engine], stor, rp.Query, *rp.Mode)
 			c33CheckOne(r, rp.Query, *rp.Mode, rp.Engine, o)
-		case "pair":
-			c33PairSetup()
-			base := c33Baseline(stor, *rp.B)
-			c33RunPair(r, stor, *rp.A, *rp.B, base)
 		}
 		return
 	}
@@ -844,9 +848,30 @@ func TestVerifC33(t *testing.T) {
 		}
 	}
 
-	// ---- part 2
+	r.Set("rule", "part 1 (totality): one evaluation = one generated query text x one evaluation mode (instant time or range start/end/step) x one engine configuration; distinct_nontrivial = distinct (query, outcome class) that got past query construction. part 2 (TestVerifC33Pairs): every ordered pair (A;B) of the independence pool run in one engine with maximal pool reuse, B compared with its fresh-engine outcome (pairs_checked, pair_pool_size). part 3 (TestVerifC33Race): concurrent evaluation, sampled only.")
+}
+
+// TestVerifC33Pairs is part 2; it runs in its own process so that the two GC cycles that empty the
+// engine's pools before every pair work on a small heap.
+func TestVerifC33Pairs(t *testing.T) {
+	r := vx.Start(t, "C33", "exploration")
+	defer r.Finish()
+	stor, err := c33BuildStorage(nil)
+	if err != nil {
+		t.Fatal(err)
+	}
+	defer stor.Close()
+	if r.Replay != "" {
+		var rp c33Replay
+		r.LoadReplay(&rp)
+		if rp.Kind == "pair" {
+			c33PairSetup()
+			base := c33Baseline(stor, *rp.B)
+			c33RunPair(r, stor, *rp.A, *rp.B, base)
+		}
+		return
+	}
 	c33Pairs(t, r, stor)
-	r.Set("rule", "part 1: one evaluation = one generated query text x one evaluation mode (instant time or range start/end/step) x one engine configuration; distinct_nontrivial = distinct (query, outcome class) that got past query construction. part 2: every ordered pair (A;B) of the independence pool run in one engine with maximal pool reuse, B compared with its fresh-engine outcome (pairs_checked, pair_pool_size). Concurrent evaluation is sampled only (race part).")
 }
 
 // ---------------------------------------------------------------------------------------------
@@ -902,14 +927,24 @@ func c33Baseline(stor *teststorage.TestStorage, it c33Item) string {
 	return c33CanonSorted(c33Run(eng, stor, it.Q, it.M))
 }
 
+var c33T [4]atomic.Int64
+
 func c33RunPair(r *vx.Run, stor *teststorage.TestStorage, a, b c33Item, base string) {
+	t0 := time.Now()
 	c33Clean()
+	t1 := time.Now()
 	old := debug.SetGCPercent(-1)
 	eng := ag_NewEngine(false, 50000000)
+	t2 := time.Now()
 	oa := c33Run(eng, stor, a.Q, a.M)
 	ob := c33Run(eng, stor, b.Q, b.M)
+	t3 := time.Now()
 	eng.Close()
 	debug.SetGCPercent(old)
+	c33T[0].Add(int64(t1.Sub(t0)))
+	c33T[1].Add(int64(t2.Sub(t1)))
+	c33T[2].Add(int64(t3.Sub(t2)))
+	c33T[3].Add(int64(time.Since(t3)))
 	rp := c33Replay{Kind: "pair", A: &a, B: &b}
 	c33CheckOne(r, a.Q, a.M, 0, oa)
 	c33CheckOne(r, b.Q, b.M, 0, ob)
@@ -958,6 +993,7 @@ outer:
 			pairs++
 		}
 	}
+	r.Set("pair_phase_ms", fmt.Sprintf("clean=%d newengine=%d queries=%d close=%d", c33T[0].Load()/1e6, c33T[1].Load()/1e6, c33T[2].Load()/1e6, c33T[3].Load()/1e6))
 	r.Count("pairs_checked", pairs)
 	r.Count("evaluations", 2*pairs)
 	r.Set("pair_pool_size", len(items))
